@@ -32,6 +32,41 @@ CHECKS = {
         "note": "math.comb = Pascal binomial; sorted = insertion sort; +/-inf padding modelled by an arbitrary filler; memo cache excluded (C13); axioms: none.",
         "design": "5/C02",
     },
+    "C03": {
+        "text": ("Theorem: P.h(*which) has exactly the brute-force counts of the sum of the selected positions for every "
+                 "pool and selection, through every branch (no-selection sum_h, the 'everything m times' short-circuit, "
+                 "enumeration by any strategy); equivalent selections give the same counts; a single index is the order "
+                 "statistic; monotone relabelling commutes with sorting (decreasing maps mirror positions). Correspondence "
+                 "on generated pools x selections incl. sizes beyond brute force (compared with the proved model) and "
+                 "metamorphic pairs on the implementation."),
+        "note": "outcome addition assumed commutative/associative with unit (section hypotheses, true of Qc); axioms: none.",
+        "design": "5/C03",
+    },
+    "C04": {
+        "text": ("Theorems: n@h is the n-fold independent sum (brute-force counts, total h.total**n), 0@h empty, negative n "
+                 "rejected, (m+n)@h = m@h + n@h as identical histograms; P(...) ignores argument order, flattens nesting, "
+                 "drops zero-total dice, is sorted canonically, total = product; n@P(h) is n copies of h; p.h() is the "
+                 "brute-force sum of its dice. Correspondence up to n = 40 with counts far above 2**53."),
+        "note": "sum()/list.sort modelled by folds and insertion sort; axioms: none.",
+        "design": "5/C04",
+    },
+    "C05": {
+        "text": ("Theorems: == holds iff same distribution (both directions, zero-total and empty cases), equal implies "
+                 "equal hash, != is the negation, scaled and zero-padded copies are equal; lowest_terms is idempotent, "
+                 "preserves the distribution, has positive counts of gcd 1; construction is independent of order and "
+                 "regrouping, accumulates repeated outcomes, rejects negative counts. Correspondence incl. representation "
+                 "twins (1 / 1.0 / Fraction(1) / True), pool == histogram, H(n)."),
+        "note": "Python's hash()/frozenset trusted (model hash = reduced item list); axioms: none.",
+        "design": "5/C05",
+    },
+    "C16": {
+        "text": ("Theorems over exact rationals: distribution lists every outcome once in order with (count, total), "
+                 "probabilities sum to 1, variance = E[(X-mu)^2], mean/variance invariant under scaling and zero padding "
+                 "and dependent only on the count function, additive for independent sums. Correspondence: exact where "
+                 "Python is exact (Fraction outcomes, distribution()), tolerance for float paths."),
+        "note": "PARTIAL: floating-point rounding and sqrt (stdev) are not modelled; float results are compared within a tolerance; axioms: none.",
+        "design": "5/C16",
+    },
     "C18": {
         "text": ("Theorems (all inputs, any outcome type with a decidable total order): a successful draw changes "
                  "exactly the requested counts, keeps every outcome, leaves no negative count and moves the total by the "
